@@ -10,6 +10,8 @@ CONSTANTS
   NFm = 3
   NPf = 3
   FrLen = FALSE
+  Forms = {}
+  FxWide = FALSE
   CLines = 3
   MaxSites = 3
   CKinds = {"comma", "type", "undef"}
